@@ -29,6 +29,7 @@ def generate(seed, tier="quick"):
         p, pname = sampling.gen_path(rnd)
         op = {"id": oid, "op": "iterative", "data": rnd.randrange(len(cfg["datasets"])), "lib": 0, "joker": "main", "role": "target"}
         op.update(p)
+        sampling.use_alt_library(rnd, op, prog.get("alt_lib"))
         op["kw"] = sampling.gen_iterative_kw(rnd, N, pname)
         op["kw"]["init_batch_size"] = rnd.randint(1, N)
         op["kw"].pop("growth_factor", None)
